@@ -41,6 +41,8 @@ SMALL_CONTAINERS = [
     "(lambda r: (r, [r]))(['s'])", "(lambda d: [d, {'z': d}])({'k': 's'})", "(lambda r: defaultdict(list, {'p': r, 'q': r}))([A()])",
     # classes of user modules named like builtins
     "TimeoutError()", "[TimeoutError(), Warning()]", "{'a': KeyError_()}", "Warning",
+    # str-subclass keys, falsy class objects
+    "{SKey('a'): 1}", "{SKey('a'): 1, SKey('b'): 's'}", "{SKey('a'): 1, 'b': 2}", "Registry()", "Registry", "[Registry, A]",
 ]
 
 BASIS = ATOMS + SMALL_CONTAINERS
